@@ -153,8 +153,9 @@ where
         };
         let y: Vec<Vec<Float>> = t.iter().map(|_| Vec::new()).collect();
         
+        // The (empty) continuous solution covers the whole interval, as the reported times do.
         let continuous_sol = if options.dense_output {
-            Some(ContinuousOutput::constant(options.method, x0, y0))
+            Some(ContinuousOutput::from_segments(options.method, 0, vec![(Vec::new(), x0, xend - x0)]))
         } else {
             None
         };
